@@ -23,6 +23,13 @@ Theorem C20_shots_restored : forall h p, shots (weak_history h p) = shots p.
 Proof. exact weak_history_shots. Qed.
 Print Assumptions C20_shots_restored.
 
+(* the number of result columns of a layer-sampling run depends on the circuit of THIS run only: not on the circuits the same
+   parameter object was used for before, nor on the num_mid_measurements it was constructed with *)
+Theorem C20_columns_history_independent : forall h labelled p,
+  snd (run_layers labelled (layers_history h p)) = if sample_layers p then labelled + 2 else 1.
+Proof. exact layers_history_independent. Qed.
+Print Assumptions C20_columns_history_independent.
+
 Example C20_example : snd (run_strong true (strong_history [false; true; false] {| num_traj := 7; traj_rows := 0 |})) = 7
   /\ snd (run_weak false (weak_history [true] {| shots := 5; meas := repeat None 5 |})) = 5.
 Proof. vm_compute. split; reflexivity. Qed.
